@@ -1,6 +1,6 @@
 (* C04 — every reported state is a physical density matrix. *)
 From Coq Require Import ZArith Arith List Bool Lia.
-From OQ Require Import Lib.RingSum Lib.Mat Model.SuperOps Model.Shapes Model.PathSum Proofs.SuperOpsSpec Proofs.ShapesSpec Proofs.PathSumTrace.
+From OQ Require Import Lib.RingSum Lib.Mat Model.SuperOps Model.Shapes Model.PathSum Proofs.SuperOpsSpec Proofs.ShapesSpec Proofs.PathSumTrace Proofs.PathSumHerm.
 Import ListNotations.
 
 (* Throughout: K any commutative ring with an involutive ring automorphism conj and an element iu
@@ -84,6 +84,33 @@ Theorem pathsum_trace :
 Proof. intros K d2 diag0 coef uin uout props rho0 t H1 H2 H3 H4 H5 H6 H7 H8 H9. exact (PathSumTrace.pathsum_trace K d2 diag0 coef uin uout props rho0 t H1 H2 H3 H4 H5 H6 H7 H8 H9). Qed.
 Print Assumptions pathsum_trace.
 
+(* (6) ... and preserves Hermiticity: with sw the exchange (a,b) -> (b,a) of the vectorised index, if every
+   factor maps Hermitian matrices to Hermitian matrices (M[sw i][sw j] = conj M[i][j]: what (2) gives
+   for the generator), the initial state is Hermitian and exchanging the branches of both indices
+   conjugates the influence functions ((3)), then every state of the whole path sum is Hermitian *)
+Theorem pathsum_herm :
+  forall (K : Ring) (conj : K -> K),
+    (forall a b, conj (radd a b) = radd (conj a) (conj b)) ->
+    (forall a b, conj (rmul a b) = rmul (conj a) (conj b)) -> conj r0 = r0 -> conj r1 = r1 ->
+  forall (d2 : nat) (sw : nat -> nat),
+    (forall i, i < d2 -> sw i < d2) -> (forall i, i < d2 -> sw (sw i) = i) ->
+  forall (diag0 : nat -> K) (coef : nat -> nat -> option (list (list K)))
+         (uin uout : list (list K)) (props : nat -> list (list K) * list (list K)) (rho0 : list K),
+    square K d2 uin -> square K d2 uout ->
+    (forall k, square K d2 (fst (props k)) /\ square K d2 (snd (props k))) -> length rho0 = d2 ->
+    hmat K conj d2 sw uin -> hmat K conj d2 sw uout ->
+    (forall k, hmat K conj d2 sw (fst (props k)) /\ hmat K conj d2 sw (snd (props k))) ->
+    rel K conj d2 sw rho0 rho0 ->
+    (forall j, j < d2 -> diag0 (sw j) = conj (diag0 j)) ->
+    (forall kp k m jp j, coef kp k = Some m -> jp < d2 -> j < d2 -> entry K m (sw jp) (sw j) = conj (entry K m jp j)) ->
+    forall n s, s < d2 ->
+      state_entry d2 diag0 coef uin uout props rho0 (S n) (sw s) = conj (state_entry d2 diag0 coef uin uout props rho0 (S n) s).
+Proof.
+  intros K conj C1 C2 C3 C4 d2 sw S1 S2 diag0 coef uin uout props rho0 H1 H2 H3 H4 H5 H6 H7 H8 H9 H10.
+  exact (PathSumHerm.pathsum_herm K conj C1 C2 C3 C4 d2 sw S1 S2 diag0 coef uin uout props rho0 H1 H2 H3 H4 H5 H6 H7 H8 H9 H10).
+Qed.
+Print Assumptions pathsum_herm.
+
 (* the hypotheses are satisfiable by a non-trivial network (d = 2: indices 0,3 are the populations; a
    propagator that mixes populations and coherences, influences different from 1 on the coherences),
    and on it the conclusion is not an artefact of everything being the identity *)
@@ -104,4 +131,29 @@ Proof.
   split; [intros i Hi; do 4 (destruct i as [|i]; [reflexivity|]); lia|].
   split; [intros j Hj; do 4 (destruct j as [|j]; [reflexivity|]); lia|].
   split; [vm_compute; reflexivity|vm_compute; discriminate].
+Qed.
+
+(* (6) is not vacuous either: a Gaussian-integer network (d = 2, sw = (0 2 1 3)) whose propagator is
+   rho -> U rho U^+ for a non-unitary complex U, complex influence functions obeying the branch-exchange
+   symmetry, a Hermitian complex initial state *)
+Definition hx_sw (i : nat) : nat := match i with 1%nat => 2%nat | 2%nat => 1%nat | _ => i end.
+Definition hx_u (a c : nat) : G :=
+  match a, c with 0%nat, 0%nat => (1, 0) | 0%nat, _ => (0, 1) | _, 0%nat => (2, 0) | _, _ => (1, -1) end.
+Definition hx_p : list (list G) :=
+  map (fun i => map (fun j => gmul (hx_u (i / 2) (j / 2)) (gconj (hx_u (i mod 2) (j mod 2)))) (seq 0 4)) (seq 0 4).
+Definition hx_id : list (list G) := map (fun i => map (fun j => if Nat.eqb i j then g1 else g0) (seq 0 4)) (seq 0 4).
+Definition hx_a (j : nat) : G := match j with 0%nat => (1, 0) | 1%nat => (0, 1) | 2%nat => (0, -1) | _ => (2, 0) end.
+Definition hx_b (j : nat) : G := match j with 0%nat => (1, 0) | 1%nat => (1, 1) | 2%nat => (1, -1) | _ => (1, 0) end.
+Definition hx_m : list (list G) := map (fun jp => map (fun j => gmul (hx_a jp) (hx_b j)) (seq 0 4)) (seq 0 4).
+Definition hx_rho : list G := [(2, 0); (1, 1); (1, -1); (3, 0)].
+Example pathsum_herm_nonvacuous :
+  hmat GRing gconj 4 hx_sw hx_p /\ rel GRing gconj 4 hx_sw hx_rho hx_rho /\
+  (forall jp j, (jp < 4)%nat -> (j < 4)%nat -> entry GRing hx_m (hx_sw jp) (hx_sw j) = gconj (entry GRing hx_m jp j)) /\
+  map (@state_entry GRing 4 hx_b (fun _ _ => Some hx_m) hx_id hx_id (fun _ => (hx_p, hx_p)) hx_rho 2) [0; 1; 2; 3]%nat
+  = [(55, 0); (-10, 240); (-10, -240); (1140, 0)].
+Proof.
+  split; [intros i j Hi Hj; do 4 (destruct i as [|i]; [do 4 (destruct j as [|j]; [vm_compute; reflexivity|]); lia|]); lia|].
+  split; [intros i Hi; do 4 (destruct i as [|i]; [vm_compute; reflexivity|]); lia|].
+  split; [intros i j Hi Hj; do 4 (destruct i as [|i]; [do 4 (destruct j as [|j]; [vm_compute; reflexivity|]); lia|]); lia|].
+  vm_compute. reflexivity.
 Qed.
